@@ -5,14 +5,22 @@ prop("C30",
                "NeoFS.ACL.bearer_lifetime_boundaries", "NeoFS.ACL.signed_field_change_rejects", "NeoFS.ACL.v1_tampered_rejected",
                "NeoFS.ACL.bad_signature_rejects_v1", "NeoFS.ACL.bad_signature_rejects_v2", "NeoFS.ACL.bad_signature_rejects_bearer",
                "NeoFS.ACL.cache_transparent", "NeoFS.ACL.old_cache_honours_expired_token", "NeoFS.ACL.verb_table",
-               "NeoFS.ACL.delete_token_skips_object"],
+               "NeoFS.ACL.delete_token_skips_object",
+               "NeoFS.ACL.v2ChainAuth_iff", "NeoFS.ACL.v2ChainValid_iff", "NeoFS.ACL.chainLinked_iff", "NeoFS.ACL.v2chain_ok_iff",
+               "NeoFS.ACL.v2chain_unsigned_level_rejects", "NeoFS.ACL.v2chain_effective_only_if_root_signed",
+               "NeoFS.ACL.v2chain_too_deep_rejected", "NeoFS.ACL.v2chain_no_origin", "NeoFS.ACL.v2chain_lifetime_within_root"],
      engines=[dict(name="acl", quick=1, thorough=1)],
      claim="Lean theorems for ALL tokens, epochs/times and requests over the model of the code's token checks: (1) acceptance = "
            "conjunction: a V1 session token is accepted by VerifySessionV1TokenMessage IFF signed by its issuer's key, nbf<=cur, iat<=cur, "
            "cur<=exp, bound to the request's container, to its object (unless it is a delete token or the request names no object) and its "
            "verb admits the request verb by assertVerb's table (HEAD by head/get/delete/range, SEARCH by search/delete, else equal); a V2 "
-           "token (no delegation chain) IFF structurally valid, signed by its issuer, iat<=now, nbf<=now, now<=exp and some context for the "
-           "request's container or the wildcard lists the verb; a bearer token IFF signed by its issuer and within nbf/iat/exp; "
+           "token without origins IFF structurally valid, signed by its issuer, iat<=now, nbf<=now, now<=exp and some context for the "
+           "request's container or the wildcard lists the verb; a DELEGATED V2 token (v2chain_ok_iff, by induction over the chain, any "
+           "length) IFF it has at most MaxDelegationDepth origins, EVERY token of the chain down to the root is structurally valid and "
+           "signed by its own issuer's key (AuthenticateTokenV2's walk has no depth bound), no origin is final, every token's issuer is "
+           "named by its origin and its lifetime and contexts only narrow (Token.validate's walk incl. the merge walk of "
+           "validateDelegatedContexts), and the outermost token is within its lifetime and admits the verb; the request is judged as the "
+           "ORIGINAL issuer only if the root token is signed by that account's key (v2chain_effective_only_if_root_signed); a bearer token IFF signed by its issuer and within nbf/iat/exp; "
            "(2) effect: the request is judged under the token issuer's identity only if the token was accepted, a session token that is "
            "not accepted REJECTS the request (never ignored); an invalid or mismatching bearer token REJECTS the request; a valid bearer "
            "token whose rules the basic ACL does not allow for the operation is IGNORED (same decision as without it); its table is the "
@@ -25,14 +33,16 @@ prop("C30",
            "flipped signature bit, single flipped byte anywhere in the encoding) through the real acl/v2.Service on one service per "
            "sequence with epoch/time changes WITHOUT cache purges, object validations seeding the shared cache, and purges. One genuine "
            "defect found and fixed (lifetime test lived inside the cached verdict).",
-     note="Proved over Model/Token.lean + Model/ACL.lean. Not modelled / only partly exercised: V2 delegation chains (origin tokens, "
-          "narrowing, depth) and NNS subjects - generated tokens have no origin; N3 (contract witness) signatures; the subject / session "
+     note="Proved over Model/Token.lean + Model/ACL.lean. Not modelled / only partly exercised: NNS subjects of V2 tokens (subjects are accounts); N3 (contract witness) signatures; the subject / session "
           "key of a token is NOT checked against the request signer anywhere in the object request path (code fact, as the protocol has it: "
           "whoever holds the token may use it) - stated, not judged; V2 tokens carry no object binding; only the outermost V2 token's "
           "lifetime is tested per request. Signatures are an ideal predicate in the model. Error kinds are compared by class "
           "(ok / expired / access-denied / rejected), so rewording messages does not alarm. The repair moved the lifetime test behind "
           "the cache (as the V2 path already had it), which changes which error an expired AND badly signed token gets.",
-     rule="160 (quick) / 6000 (thorough) sequences: 5 pooled tokens per sequence (V1, V2, bearer; 1/2 carry one defect: flipped signature "
+     rule="a grid of delegated V2 tokens: every number of origins 0..MaxDelegationDepth+1 x every level x {flipped signature bit, signed "
+          "by another account's key, issuer replaced after signing, signed field changed, issuer not named by the origin, lifetime / verbs "
+          "wider than the origin's, final origin, wrong version, no subjects} plus a valid chain per depth (also corpus/acl/c30-chains.ops); "
+          "160 (quick) / 6000 (thorough) sequences: 5 pooled tokens per sequence (V1, V2, delegated V2 with 0..5 origins, bearer; 1/2 carry one defect: flipped signature "
           "bit, signed by another key, one signed field changed after signing (exp nbf iat container objects verb issuer / contexts "
           "subjects), expired, nbf or iat ahead, unsorted verbs/contexts, wrong version, no subjects, wildcard duplicate), 8-21 ops each: "
           "verify a pooled token for a request (verb equal / random / HEAD / SEARCH, container equal or other, object in or out of the "
